@@ -218,6 +218,17 @@ func genC15(kind string) func(r *core.Rng) any {
 				if p.Length() < 20 {
 					p = canvas.Rectangle(r.Range(10, 40), r.Range(10, 40))
 				}
+				if r.Chance(0.15) {
+					// a straight horizontal or vertical line: its bounds have no area, only its stroke does
+					p = &canvas.Path{}
+					x0, y0, l := r.Range(-30, 30), r.Range(-30, 30), r.Range(20, 120)
+					p.MoveTo(x0, y0)
+					if r.Bool() {
+						p.LineTo(x0+l, y0)
+					} else {
+						p.LineTo(x0, y0+l)
+					}
+				}
 				add("DrawPath", append([]float64{x, y}, dataCopy(p)...))
 			case 27:
 				x, y := pt()
